@@ -127,8 +127,12 @@ func H_C13_Tree(v *sym.V) {
 	v.Assert("is-after-hop", errors.Is(h, r) == errors.Is(e, r))
 	v.Assert("branch-count-hop", len(errbase.UnwrapMulti(errors.UnwrapAll(h))) == len(errbase.UnwrapMulti(node)))
 
-	// %+v shows every branch
+	// %+v shows every branch, one numbered entry per layer
 	p := fmt.Sprintf("%+v", errors.Formattable(e))
+	nl := len(printOrder(e, nil))
+	for k := 2; k <= nl; k++ {
+		v.Assert("plusv-entry-per-layer", entryLines(p, fmt.Sprintf("Wraps: (%d)", k)) == 1)
+	}
 	for _, b := range bs {
 		// every branch has entries of its own: the message of its root cause is displayed
 		v.Assert("plusv-shows-branch", sym.Contains(p, errors.UnwrapAll(b.Err).Error()))
